@@ -231,7 +231,8 @@ func (p *untypedParamBinder) Bind(request *http.Request, routeParams RouteParams
 			file, header, ffErr := request.FormFile(p.parameter.Name)
 			if ffErr != nil {
 				if p.parameter.Required {
-					if ffErr == http.ErrMissingFile {
+					if ffErr == http.ErrMissingFile || ffErr == http.ErrNotMultipart {
+						// (a urlencoded form cannot carry a file: the required file is missing, the form is not malformed)
 						return errors.Required(p.Name, p.parameter.In, nil)
 					}
 					return errors.NewParseError(p.Name, p.parameter.In, "", ffErr)
